@@ -226,6 +226,10 @@ func (g *graphMemoizer) Objects(ctx context.Context, s *node.Node, p *predicate.
 	for o := range c {
 		select {
 		case <-ctx.Done():
+			// Drain the wrapped lookup so that its goroutine can finish.
+			for range c {
+			}
+			wg.Wait()
 			return errors.New("context cancelled")
 		case objs <- o:
 			// memoize the object.
@@ -295,6 +299,10 @@ func (g *graphMemoizer) Subjects(ctx context.Context, p *predicate.Predicate, o 
 	for s := range c {
 		select {
 		case <-ctx.Done():
+			// Drain the wrapped lookup so that its goroutine can finish.
+			for range c {
+			}
+			wg.Wait()
 			return errors.New("context cancelled")
 		case subs <- s:
 			// memoize the object.
@@ -354,6 +362,10 @@ func (g *graphMemoizer) PredicatesForSubject(ctx context.Context, s *node.Node, 
 	for p := range c {
 		select {
 		case <-ctx.Done():
+			// Drain the wrapped lookup so that its goroutine can finish.
+			for range c {
+			}
+			wg.Wait()
 			return errors.New("context cancelled")
 		case prds <- p:
 			// memoize the object.
@@ -413,6 +425,10 @@ func (g *graphMemoizer) PredicatesForObject(ctx context.Context, o *triple.Objec
 	for p := range c {
 		select {
 		case <-ctx.Done():
+			// Drain the wrapped lookup so that its goroutine can finish.
+			for range c {
+			}
+			wg.Wait()
 			return errors.New("context cancelled")
 		case prds <- p:
 			// memoize the object.
@@ -472,6 +488,10 @@ func (g *graphMemoizer) PredicatesForSubjectAndObject(ctx context.Context, s *no
 	for p := range c {
 		select {
 		case <-ctx.Done():
+			// Drain the wrapped lookup so that its goroutine can finish.
+			for range c {
+			}
+			wg.Wait()
 			return errors.New("context cancelled")
 		case prds <- p:
 			// memoize the object.
@@ -531,6 +551,10 @@ func (g *graphMemoizer) TriplesForSubject(ctx context.Context, s *node.Node, lo 
 	for t := range c {
 		select {
 		case <-ctx.Done():
+			// Drain the wrapped lookup so that its goroutine can finish.
+			for range c {
+			}
+			wg.Wait()
 			return errors.New("context cancelled")
 		case trpls <- t:
 			// memoize the object.
@@ -590,6 +614,10 @@ func (g *graphMemoizer) TriplesForPredicate(ctx context.Context, p *predicate.Pr
 	for t := range c {
 		select {
 		case <-ctx.Done():
+			// Drain the wrapped lookup so that its goroutine can finish.
+			for range c {
+			}
+			wg.Wait()
 			return errors.New("context cancelled")
 		case trpls <- t:
 			// memoize the object.
@@ -649,6 +677,10 @@ func (g *graphMemoizer) TriplesForObject(ctx context.Context, o *triple.Object, 
 	for t := range c {
 		select {
 		case <-ctx.Done():
+			// Drain the wrapped lookup so that its goroutine can finish.
+			for range c {
+			}
+			wg.Wait()
 			return errors.New("context cancelled")
 		case trpls <- t:
 			// memoize the object.
@@ -708,6 +740,10 @@ func (g *graphMemoizer) TriplesForSubjectAndPredicate(ctx context.Context, s *no
 	for t := range c {
 		select {
 		case <-ctx.Done():
+			// Drain the wrapped lookup so that its goroutine can finish.
+			for range c {
+			}
+			wg.Wait()
 			return errors.New("context cancelled")
 		case trpls <- t:
 			// memoize the object.
@@ -767,6 +803,10 @@ func (g *graphMemoizer) TriplesForPredicateAndObject(ctx context.Context, p *pre
 	for t := range c {
 		select {
 		case <-ctx.Done():
+			// Drain the wrapped lookup so that its goroutine can finish.
+			for range c {
+			}
+			wg.Wait()
 			return errors.New("context cancelled")
 		case trpls <- t:
 			// memoize the object.
@@ -841,6 +881,10 @@ func (g *graphMemoizer) Triples(ctx context.Context, lo *storage.LookupOptions, 
 	for t := range c {
 		select {
 		case <-ctx.Done():
+			// Drain the wrapped lookup so that its goroutine can finish.
+			for range c {
+			}
+			wg.Wait()
 			return errors.New("context cancelled")
 		case trpls <- t:
 			// memoize the object.
